@@ -28,6 +28,10 @@ macro_rules! with_world {
                 type $W = crate::iterworld::IterWorld<crate::worlds::slices::SliceFam<()>>;
                 $body
             }
+            "slices_odd" => {
+                type $W = crate::iterworld::IterWorld<crate::worlds::slices::SliceFam<crate::worlds::slices::Odd>>;
+                $body
+            }
             "slices_big" => {
                 type $W = crate::iterworld::IterWorld<crate::worlds::slices::SliceFam<crate::worlds::slices::Big>>;
                 $body
@@ -119,6 +123,7 @@ pub fn stages_for(prop: &str, tier: Tier) -> Option<Vec<Stage>> {
             st("slices_u8", 300_000, 6_000_000),
             st("slices_zst", 150_000, 3_000_000),
             st("slices_big", 150_000, 3_000_000),
+            st("slices_odd", 150_000, 3_000_000),
             st("ranges_char", 150_000, 3_000_000),
             st("ranges_u8", 100_000, 2_000_000),
             st("ranges_i128", 50_000, 1_000_000),
@@ -138,7 +143,7 @@ pub fn stages_for(prop: &str, tier: Tier) -> Option<Vec<Stage>> {
             st("ranges_u128", 300_000, 3_000_000), st("ranges_i128", 300_000, 3_000_000), st("ranges_usize", 300_000, 3_000_000),
             st("ranges_isize", 300_000, 3_000_000),
         ],
-        "C08" => vec![st("slices_u8", 4_000_000, 40_000_000), st("slices_zst", 1_500_000, 15_000_000), st("slices_big", 1_500_000, 15_000_000)],
+        "C08" => vec![st("slices_u8", 4_000_000, 40_000_000), st("slices_zst", 1_500_000, 15_000_000), st("slices_big", 1_500_000, 15_000_000), st("slices_odd", 1_500_000, 15_000_000)],
         _ => return None,
     })
 }
@@ -295,6 +300,7 @@ pub fn extra_stages(prop: &str, tier: Tier, seed: u64, _scratch: &Path) -> Extra
         seg("slices_u8", 24),
         seg("slices_zst", 12),
         seg("slices_big", 12),
+        seg("slices_odd", 12),
         seg("ranges_char", 12),
         seg("ranges_u8", 8),
         seg("ranges_i128", 4),
